@@ -89,6 +89,7 @@ func genBasicRPC(t *rapid.T, label string, maxMsgs int, allowHuge bool) RPC {
 		}
 	}
 	r.Fuse = genFuse(t, label)
+	r.ReuseMsg = rapid.IntRange(0, 3).Draw(t, label+".reusemsg") == 0
 	return r
 }
 
@@ -152,6 +153,11 @@ func genMixedTerm(t *rapid.T) *Case {
 		ev.Ms = 100
 	}
 	c.Events = []Event{ev}
+	for i := range c.RPCs {
+		if !(kind == "cancel_rpc" && ev.Target == i) && c.RPCs[i].Timeout == 0 && rapid.IntRange(0, 3).Draw(t, fmt.Sprintf("rpc%d.nocancel", i)) == 0 {
+			c.RPCs[i].NoCancelCtx = true // context.Background(): only the end of the tunnel can end this call
+		}
+	}
 	if rapid.IntRange(0, 5).Draw(t, "park_reader") == 0 {
 		// hold a handler's reader between its context check and its dequeue while the termination event strikes
 		c.Yields = append(c.Yields, Yield{Point: "server.read.beforeDequeue", Nth: rapid.IntRange(0, 8).Draw(t, "park_reader.nth"), Kind: "park"})
@@ -171,6 +177,12 @@ func genMixedTermBounded(t *rapid.T) *Case {
 	c := genMixedTerm(t)
 	c.Prop = "mixed_term_bounded"
 	c.Cfg.Cap = rapid.SampledFrom([]int{1, 1, 2}).Draw(t, "cap_bounded")
+	if rapid.IntRange(0, 2).Draw(t, "slow_creds") == 0 {
+		// an RPC whose per-RPC credentials callback is held (application code) while the termination event strikes
+		i := rapid.IntRange(0, len(c.RPCs)-1).Draw(t, "slow_creds.rpc")
+		c.RPCs[i].Creds = &Creds{MD: map[string]string{"tok": "v"}}
+		c.Yields = append(c.Yields, Yield{Point: "cb.creds", Nth: 0, Kind: "park"})
+	}
 	return c
 }
 
